@@ -287,7 +287,7 @@ func runType(c *fw.Ctx, tc tcase) {
 		if pc == "named-type-redefined" {
 			// identify the defect by its call site: does the Go type really use one named struct type in several positions?
 			if usesNamedStructTwice(tc.typ) {
-				c.Violation("invalid-schema|named-type-redefined|same-named-struct-in-several-positions", fmt.Sprintf("SchemaForType(%s) defines a named record more than once: %s — %s", tc.name, p, clip(gs.Print(nil))), det)
+				c.Violation("invalid-schema|named-type-redefined|same-named-type-in-several-positions", fmt.Sprintf("SchemaForType(%s) defines a named record more than once: %s — %s", tc.name, p, clip(gs.Print(nil))), det)
 				continue
 			}
 		}
@@ -320,7 +320,11 @@ func usesNamedStructTwice(t reflect.Type) bool {
 		if depth > 20 {
 			return
 		}
-		if _, ok := registry[t]; ok {
+		if rs, ok := registry[t]; ok {
+			// a registered schema that is itself a named type (fixed / enum / record) is emitted verbatim at every position
+			if rs.Type == "fixed" || rs.Type == "enum" || rs.Type == "record" {
+				count[t]++
+			}
 			return
 		}
 		switch t.Kind() {
